@@ -57,6 +57,14 @@ func Main(args []string) int {
 				}
 			}
 		}
+		if strings.HasPrefix(*dump, "spec:") {
+			parts := strings.SplitN((*dump)[5:], ":", 2)
+			for _, f := range p.Funcs {
+				if FuncName(f) == parts[0] && len(parts) == 2 {
+					p.DumpSpecs(f, strings.Split(parts[1], ","))
+				}
+			}
+		}
 		if strings.HasPrefix(*dump, "sites:") {
 			for _, f := range p.Funcs {
 				if strings.Contains(FuncName(f), (*dump)[6:]) {
